@@ -45,7 +45,9 @@ class ClassWorld:
                 if isinstance(st, (ast.Assign, ast.AnnAssign)) and getattr(st, "value", None) is not None:
                     tgts = st.targets if isinstance(st, ast.Assign) else [st.target]
                     if not isinstance(st.value, (ast.Dict, ast.List, ast.Tuple, ast.Constant, ast.BinOp, ast.Set,
-                                                 ast.Attribute, ast.Name, ast.UnaryOp, ast.BoolOp, ast.Compare)):
+                                                 ast.Attribute, ast.Name, ast.UnaryOp, ast.BoolOp, ast.Compare)) and not (
+                        isinstance(st.value, ast.Call) and dotted(st.value.func) in ("re.compile",)
+                    ):
                         continue
                     try:
                         v = self.ev.eval(st.value, self.genv)
